@@ -249,6 +249,11 @@ func (c18) AfterOp(x *Exec, task, idx int, op Op, out Outcome) {
 			name = o
 		}
 		st.changed[string(x.w.objs[op.Obj].T)+name] = true
+		if _, isOpt := optOf[op.M]; isOpt {
+			x.fault("option-flipped")
+		} else if op.M != "Push" && op.M != "Pop" && op.M != "Reset" {
+			x.fault("setting-changed")
+		}
 		if len(st.changed) >= 4 {
 			x.stats.NonTrivial = true
 		}
